@@ -430,8 +430,9 @@ def run(ctx):
     """GF(p) part (below) and binary-curve part (checks/C06_ec2.py) run concurrently; the counts are added up."""
     import concurrent.futures as cf
     import C06_ec2
+    drvs2 = C06_ec2.build_drivers(ctx)          # builds the library variants once, before the two parts share them
     with cf.ThreadPoolExecutor(max_workers=1) as ex:
-        f2 = ex.submit(C06_ec2.run_part, ctx)
+        f2 = ex.submit(C06_ec2.run_part, ctx, drvs2)
         try:
             run_gfp(ctx)
         finally:
